@@ -121,12 +121,18 @@ theorem C15_raw_only_writes (a : Arr) (ops : List Op) :
     (exec a ops).raw = (exec a (ops.filter isWrite)).raw :=
   exec_raw_filter a a ops rfl
 
-/-- the setters: validation and `None` handling -/
+/-- the setters: validation and `None` handling.  Invalid values — a bare number, a nested list / 2-D array /
+text (anything with a length that is not a flat sequence), a flat sequence holding text or complex numbers, a
+non-number as origin — are refused (and by `C15_refused_changes_nothing` change nothing); an empty
+anything clears the coefficients. -/
 theorem C15_setters (a : Arr) :
     setCoeffs a .none = .ok { a with coeffs := none } ∧
     setCoeffs a (.seq []) = .ok { a with coeffs := none } ∧
     (∀ c cs, setCoeffs a (.seq (c :: cs)) = .ok { a with coeffs := some (c :: cs) }) ∧
     (∀ x, setCoeffs a (.scalar x) = .error .typeError) ∧
+    setCoeffs a (.notFlat 0) = .ok { a with coeffs := none } ∧
+    (∀ n, setCoeffs a (.notFlat (n + 1)) = .error .valueError) ∧
+    setCoeffs a (.badElems false) = .error .valueError ∧ setCoeffs a (.badElems true) = .error .typeError ∧
     setOrigin a .none = .ok { a with origin := none } ∧
     (∀ x, setOrigin a (.num x) = .ok { a with origin := some x }) ∧
     setOrigin a .notNumber = .error .typeError := by
